@@ -9,6 +9,11 @@
 (* topology with the names the documentation describes; B1 checks that it satisfies every clause, so the     *)
 (* clauses are satisfiable and none is vacuous.                                                              *)
 (* Values are decimals m * 10^(-s) in normal form (see Documents.tla); a blank cell is Absent.               *)
+(* Layout: wb.blanks[sheet] gives, row by row, how many empty spreadsheet lines precede the row (missing     *)
+(* entries = 0).  Empty lines are not rows and do not end a sheet: NO operator below reads wb.blanks, so the  *)
+(* expected conversion is the same whatever the layout.  Likewise a Links / Eqpt row is identified by its     *)
+(* end points only: two rows joining the same two sites are duplicates whatever their other cells say        *)
+(* (distance, cable id, ...).                                                                                 *)
 EXTENDS Integers, Sequences, FiniteSets, TLC
 
 Num(m, s) == [t |-> "num", m |-> m, s |-> s]
